@@ -89,22 +89,22 @@ auto trsm(Context&& ctxt, blas::side a_side, blas::filling a_fill, blas::diagona
 	if(size(b) != 0) {
 		#define CTXT std::forward<Context>(ctxt)
 		if       constexpr(! is_conjugated<A2D>{} && ! is_conjugated<B2D>{}) {
-			if     (stride( a)==1 && stride( b)==1) {CTXT->trsm(static_cast<char>(    (a_side)), static_cast<char>(-a_fill), 'N', static_cast<char>(a_diag), size( b), size(~b),      alpha ,            a.base() , stride(~a),            b.base() , stride(~b));}
-			else if(stride(~a)==1 && stride(~b)==1) {CTXT->trsm(static_cast<char>(swap(a_side)), static_cast<char>(+a_fill), 'N', static_cast<char>(a_diag), size(~b), size( b),      alpha ,            a.base() , stride( a),            b.base() , stride( b));}
-			else if(stride( a)==1 && stride(~b)==1) {CTXT->trsm(static_cast<char>(swap(a_side)), static_cast<char>(-a_fill), 'T', static_cast<char>(a_diag), size(~b), size( b),      alpha ,            a.base() , stride(~a),            b.base() , stride( b));}
-			else if(stride(~a)==1 && stride( b)==1) {CTXT->trsm(static_cast<char>(    (a_side)), static_cast<char>(+a_fill), 'T', static_cast<char>(a_diag), size( b), size(~b),      alpha ,            a.base() , stride( a),            b.base() , stride(~b));}
+			if     (stride( a)==1 && stride( b)==1) {CTXT->trsm(static_cast<char>(    (a_side)), static_cast<char>(-a_fill), 'N', static_cast<char>(a_diag), size( b), size(~b),      alpha ,            a.base() , stride(~a),            b.base() , legal_ld(stride(~b), size( b)));}
+			else if(stride(~a)==1 && stride(~b)==1) {CTXT->trsm(static_cast<char>(swap(a_side)), static_cast<char>(+a_fill), 'N', static_cast<char>(a_diag), size(~b), size( b),      alpha ,            a.base() , stride( a),            b.base() , legal_ld(stride( b), size(~b)));}
+			else if(stride( a)==1 && stride(~b)==1) {CTXT->trsm(static_cast<char>(swap(a_side)), static_cast<char>(-a_fill), 'T', static_cast<char>(a_diag), size(~b), size( b),      alpha ,            a.base() , stride(~a),            b.base() , legal_ld(stride( b), size(~b)));}
+			else if(stride(~a)==1 && stride( b)==1) {CTXT->trsm(static_cast<char>(    (a_side)), static_cast<char>(+a_fill), 'T', static_cast<char>(a_diag), size( b), size(~b),      alpha ,            a.base() , stride( a),            b.base() , legal_ld(stride(~b), size( b)));}
 			else                                    {assert(0 && "not implemented in blas");}  // LCOV_EXCL_LINE
 		} else if constexpr(   is_conjugated<A2D>{} && ! is_conjugated<B2D>{}) {
-			if     (stride( a)==1 && stride(~b)==1) {CTXT->trsm(static_cast<char>(swap(a_side)), static_cast<char>(-a_fill), 'C', static_cast<char>(a_diag), size(~b), size( b),      alpha , underlying(a.base()), stride(~a),            b.base() , stride( b));}
-			else if(stride(~a)==1 && stride( b)==1) {CTXT->trsm(static_cast<char>(    (a_side)), static_cast<char>(+a_fill), 'C', static_cast<char>(a_diag), size( b), size(~b),      alpha , underlying(a.base()), stride( a),            b.base() , stride(~b));}
+			if     (stride( a)==1 && stride(~b)==1) {CTXT->trsm(static_cast<char>(swap(a_side)), static_cast<char>(-a_fill), 'C', static_cast<char>(a_diag), size(~b), size( b),      alpha , underlying(a.base()), stride(~a),            b.base() , legal_ld(stride( b), size(~b)));}
+			else if(stride(~a)==1 && stride( b)==1) {CTXT->trsm(static_cast<char>(    (a_side)), static_cast<char>(+a_fill), 'C', static_cast<char>(a_diag), size( b), size(~b),      alpha , underlying(a.base()), stride( a),            b.base() , legal_ld(stride(~b), size( b)));}
 			else                                    {assert(0 && "not implemented in blas");}  // LCOV_EXCL_LINE
 		} else if constexpr(! is_conjugated<A2D>{} &&    is_conjugated<B2D>{}) {
-			if     (stride(~a)==1 && stride( b)==1) {CTXT->trsm(static_cast<char>(    (a_side)), static_cast<char>(+a_fill), 'C', static_cast<char>(a_diag), size( b), size(~b), conj(alpha),            a.base() , stride( a), underlying(b.base()), stride(~b));}
+			if     (stride(~a)==1 && stride( b)==1) {CTXT->trsm(static_cast<char>(    (a_side)), static_cast<char>(+a_fill), 'C', static_cast<char>(a_diag), size( b), size(~b), conj(alpha),            a.base() , stride( a), underlying(b.base()), legal_ld(stride(~b), size( b)));}
 		//  else if(stride( a)==1 && stride(~b)==1) {assert(0 && "not implemented in blas");}  // LCOV_EXCL_LINE
 			else                                    {assert(0 && "not implemented in blas");}  // LCOV_EXCL_LINE
 		} else if constexpr(   is_conjugated<A2D>{} &&     is_conjugated<B2D>{}) {
-			if     (stride( a)==1 && stride(~b)==1) {CTXT->trsm(static_cast<char>(swap(a_side)), static_cast<char>(-a_fill), 'T', static_cast<char>(a_diag), size(~b), size( b), conj(alpha), underlying(a.base()), stride(~a), underlying(b.base()), stride( b));}
-			else if(stride(~a)==1 && stride( b)==1) {CTXT->trsm(static_cast<char>(    (a_side)), static_cast<char>(+a_fill), 'T', static_cast<char>(a_diag), size( b), size(~b), conj(alpha), underlying(a.base()), stride( a), underlying(bbase(b)), stride(~b));}
+			if     (stride( a)==1 && stride(~b)==1) {CTXT->trsm(static_cast<char>(swap(a_side)), static_cast<char>(-a_fill), 'T', static_cast<char>(a_diag), size(~b), size( b), conj(alpha), underlying(a.base()), stride(~a), underlying(b.base()), legal_ld(stride( b), size(~b)));}
+			else if(stride(~a)==1 && stride( b)==1) {CTXT->trsm(static_cast<char>(    (a_side)), static_cast<char>(+a_fill), 'T', static_cast<char>(a_diag), size( b), size(~b), conj(alpha), underlying(a.base()), stride( a), underlying(bbase(b)), legal_ld(stride(~b), size( b)));}
 			else                                    {assert(0 && "not implemented in blas");}  // LCOV_EXCL_LINE
 		}
 		#undef CTXT
